@@ -82,52 +82,21 @@ theorem relativeTo_ext_parent (source : PPath) (rp : Path) (h : source.parts ≠
 
 theorem parse_nil : PPath.parse [] = ⟨0, []⟩ := by decide
 
-/-- `write_into=True` and a destination of at most one relative component -/
-theorem relGood_write_into (l : Local) (source dest : PPath) (S : Path) (cwd : PPath) (hd : SafeP dest)
-    (hroot : dest.root = 0) (hlen : dest.parts.length ≤ 1) :
-    RelGood ⟨l, source, dest, true, S, landing cwd dest, cwd⟩ := by
+/-- **every destination shape**, `write_into` on or off: `destination / path.relative_to(source)` resolves
+    exactly below the place the destination resolves to -/
+theorem relGood (l : Local) (source dest : PPath) (wi : Bool) (S : Path) (cwd : PPath) (hd : SafeP dest) :
+    RelGood ⟨l, source, dest, wi, S, landing cwd dest, cwd⟩ := by
   intro rp _ hrp
-  simp only [relativeOf, relativeTo_ext, ↓reduceIte]
-  match hp : dest.parts, hlen with
-  | [], _ =>
-    refine ⟨_, rfl, ?_, ?_⟩
-    · simp only [PPath.name, hp, List.getLast?_nil, Option.getD_none, parse_nil]
-      exact ⟨by simp [PPath.join], by simpa [PPath.join] using hrp⟩
-    · simp [PPath.name, hp, parse_nil, PPath.join, landing, hroot]
-  | [d], _ =>
-    have hds : SafeName d := hd.2 d (by rw [hp]; simp)
-    have hname : dest.name = d := by simp [PPath.name, hp]
-    refine ⟨_, rfl, ?_, ?_⟩
-    · rw [hname, parse_name d hds]
-      refine ⟨by simp [PPath.join], ?_⟩
-      intro x hx
-      simp only [PPath.join, ne_eq, not_true_eq_false, ↓reduceIte, List.cons_append, List.nil_append,
-        List.mem_cons] at hx
-      rcases hx with hx | hx
-      · subst hx; exact hds
-      · exact hrp x hx
-    · rw [hname, parse_name d hds]
-      simp [PPath.join, landing, hroot, hp]
-
-/-- no `write_into` and the empty destination -/
-theorem relGood_default (l : Local) (source : PPath) (S : Path) (cwd : PPath) (hs : SafeP source)
-    (hparts : source.parts ≠ []) :
-    RelGood ⟨l, source, (⟨0, []⟩ : PPath).join (PPath.parse source.name), false, S,
-      landing cwd ((⟨0, []⟩ : PPath).join (PPath.parse source.name)), cwd⟩ := by
-  intro rp _ hrp
-  have hns : SafeName source.name := by
-    apply hs.2
-    rw [parts_eq_dropLast_name source hparts]; simp
-  simp only [relativeOf, Bool.false_eq_true, ↓reduceIte, relativeTo_ext_parent source rp hparts]
+  simp only [relativeOf_eq, relativeTo_ext]
   refine ⟨_, rfl, ?_, ?_⟩
-  · refine ⟨by simp, ?_⟩
+  · refine ⟨by simpa [PPath.join] using hd.1, ?_⟩
     intro x hx
-    simp only [List.mem_cons] at hx
+    simp only [PPath.join, ne_eq, not_true_eq_false, ↓reduceIte, List.mem_append] at hx
     rcases hx with hx | hx
-    · subst hx; exact hns
+    · exact hd.2 x hx
     · exact hrp x hx
-  · rw [parse_name _ hns]
-    simp [PPath.join, landing]
+  · simp only [PPath.join, ne_eq, not_true_eq_false, ↓reduceIte, landing]
+    split <;> simp
 
 instance instDecEqExcept {ε α : Type} [DecidableEq ε] [DecidableEq α] : DecidableEq (Except ε α)
   | .ok a, .ok b => if h : a = b then isTrue (by rw [h]) else isFalse (by intro h'; injection h' with h'; exact h h')
